@@ -19,44 +19,46 @@ import (
 )
 
 type HarnessCfg struct {
-	Pkg       string                    `json:"pkg"`
-	Func      string                    `json:"func"`
-	Params    map[string]map[string]int `json:"params"` // tier -> name -> value
-	Threads   bool                      `json:"threads"`
-	MustReach []string                  `json:"must_reach"`
-	Twin      bool                      `json:"twin"`      // must yield a violation (vacuity / sensitivity witness)
-	Tiers     []string                  `json:"tiers"`     // default both
-	MaxPaths  map[string]int            `json:"max_paths"` // tier -> limit
-	What      string                    `json:"what"`
-	NoReplay  bool                      `json:"no_replay"`
-	MaxSeconds map[string]int           `json:"max_seconds"`
-	Stubs      map[string]string        `json:"stubs"`
-	YieldMode  string                   `json:"yield_mode"`
-	ClockMode  string                   `json:"clock_mode"`
-	MaxPreempt     int                  `json:"max_preempt"`     // overrides the check-level bound for this harness
-	ReplayOptional bool                 `json:"replay_optional"` // model-level counterexamples (crash durability) count even if a native run cannot exhibit them
+	Pkg            string                    `json:"pkg"`
+	Func           string                    `json:"func"`
+	Params         map[string]map[string]int `json:"params"` // tier -> name -> value
+	Threads        bool                      `json:"threads"`
+	MustReach      []string                  `json:"must_reach"`
+	Twin           bool                      `json:"twin"`      // must yield a violation (vacuity / sensitivity witness)
+	Tiers          []string                  `json:"tiers"`     // default both
+	MaxPaths       map[string]int            `json:"max_paths"` // tier -> limit
+	What           string                    `json:"what"`
+	NoReplay       bool                      `json:"no_replay"`
+	MaxSeconds     map[string]int            `json:"max_seconds"`
+	Stubs          map[string]string         `json:"stubs"`
+	YieldMode      string                    `json:"yield_mode"`
+	ClockMode      string                    `json:"clock_mode"`
+	MaxPreempt     int                       `json:"max_preempt"`      // overrides the check-level bound for this harness
+	MaxPreemptTier map[string]int            `json:"max_preempt_tier"` // tier -> bound (overrides max_preempt)
+	ReplayOptional bool                      `json:"replay_optional"`  // model-level counterexamples (crash durability) count even if a native run cannot exhibit them
 }
 
 type CheckCfg struct {
-	Property     string            `json:"property"`
-	Packages     []string          `json:"packages"`
-	Harnesses    []HarnessCfg      `json:"harnesses"`
-	Stubs        map[string]string `json:"stubs"`
-	SymMapOrder  bool              `json:"sym_map_order"`
-	PoolSymbolic bool              `json:"pool_symbolic"`
-	YieldFields  []string          `json:"yield_fields"`
-	MaxPreempt   int               `json:"max_preempt"`
-	MaxSteps     int               `json:"max_steps"`
-	MaxDecisions int               `json:"max_decisions"`
-	TimeoutMs    map[string]int    `json:"timeout_ms"`
-	Bounds       map[string]string `json:"bounds"` // tier -> human-readable bound statement
-	OutsideClaim []string          `json:"outside_claim"`
-	Assumptions  []string          `json:"assumptions"`
-	Functions    []string          `json:"functions"`
-	SkipInit     []string          `json:"skip_init"`
-	AllocEnumMax int               `json:"alloc_enum_max"`
-	YieldMode    string            `json:"yield_mode"`
-	ClockMode    string            `json:"clock_mode"`
+	Property       string            `json:"property"`
+	Packages       []string          `json:"packages"`
+	Harnesses      []HarnessCfg      `json:"harnesses"`
+	Stubs          map[string]string `json:"stubs"`
+	SymMapOrder    bool              `json:"sym_map_order"`
+	PoolSymbolic   bool              `json:"pool_symbolic"`
+	YieldFields    []string          `json:"yield_fields"`
+	MaxPreempt     int               `json:"max_preempt"`
+	MaxPreemptTier map[string]int    `json:"max_preempt_tier"`
+	MaxSteps       int               `json:"max_steps"`
+	MaxDecisions   int               `json:"max_decisions"`
+	TimeoutMs      map[string]int    `json:"timeout_ms"`
+	Bounds         map[string]string `json:"bounds"` // tier -> human-readable bound statement
+	OutsideClaim   []string          `json:"outside_claim"`
+	Assumptions    []string          `json:"assumptions"`
+	Functions      []string          `json:"functions"`
+	SkipInit       []string          `json:"skip_init"`
+	AllocEnumMax   int               `json:"alloc_enum_max"`
+	YieldMode      string            `json:"yield_mode"`
+	ClockMode      string            `json:"clock_mode"`
 }
 
 type KnownFinding struct {
@@ -233,6 +235,12 @@ func main() {
 		if hc.MaxPreempt > 0 {
 			P.MaxPreempt = hc.MaxPreempt
 		}
+		if v, ok := cfg.MaxPreemptTier[*tier]; ok {
+			P.MaxPreempt = v
+		}
+		if v, ok := hc.MaxPreemptTier[*tier]; ok {
+			P.MaxPreempt = v
+		}
 		P.ConcreteClock = cfg.ClockMode == "concrete" || hc.ClockMode == "concrete"
 		maxSec := 600
 		if *tier == "thorough" {
@@ -262,7 +270,7 @@ func main() {
 		sum := map[string]interface{}{
 			"harness": hs.Name, "what": hc.What, "paths": res.Paths, "feasible": res.Feasible, "infeasible": res.Infeasible,
 			"steps": res.Steps, "obligations_unsat": res.Obligations, "obligations_trivial": res.Trivial,
-			"queries": map[string]int{"unsat": res.Queries[0], "sat": res.Queries[1], "unknown": res.Queries[2]},
+			"queries":   map[string]int{"unsat": res.Queries[0], "sat": res.Queries[1], "unknown": res.Queries[2]},
 			"solver_ms": int(res.SolverMs), "wall_s": round2(res.WallS), "params": hs.Params, "twin": hc.Twin,
 			"violations": len(res.Violations), "max_decisions": res.MaxDecisions, "reached": res.Reached,
 		}
